@@ -139,6 +139,73 @@ Arguments cmp_eq {A cmp} _.
 Arguments cmp_antisym {A cmp} _.
 Arguments cmp_trans {A cmp} _.
 
+(* Sorting by a key: the comparison is total on keys only, so two different
+   elements with one key compare [Eq].  Among elements whose keys are pairwise
+   different the sorted list is still unique. *)
+Section KeySort.
+  Context {A K : Type} (key : A -> K) (cmpK : K -> K -> comparison).
+  Hypothesis TK : TotalCmp cmpK.
+  Definition kcmp (a b : A) : comparison := cmpK (key a) (key b).
+  Definition kle (a b : A) : Prop := le cmpK (key a) (key b).
+  Definition ksorted (l : list A) : Prop := StronglySorted kle l.
+
+  Lemma kinsert_perm x l : Permutation (x :: l) (insert_sorted kcmp x l).
+  Proof.
+    induction l as [|y t IH]; cbn; [reflexivity|].
+    destruct (leb kcmp x y); [reflexivity|]. rewrite perm_swap. apply perm_skip, IH.
+  Qed.
+
+  Lemma kisort_perm l : Permutation l (isort kcmp l).
+  Proof.
+    induction l as [|x t IH]; cbn; [reflexivity|]. rewrite <- kinsert_perm. apply perm_skip, IH.
+  Qed.
+
+  Lemma kinsert_sorted x l : ksorted l -> ksorted (insert_sorted kcmp x l).
+  Proof.
+    unfold ksorted. induction l as [|y t IH]; intros H; cbn.
+    - constructor; constructor.
+    - inversion H as [|? ? Ht Hy]; subst.
+      destruct (leb kcmp x y) eqn:E.
+      + assert (kle x y) by (unfold leb, kcmp in E; unfold kle, le; destruct (cmpK (key x) (key y)); congruence).
+        constructor; [exact H|]. constructor; [assumption|].
+        eapply Forall_impl; [|exact Hy]. intros z Hz. unfold kle in *. eapply le_trans; eauto.
+      + constructor; [apply IH, Ht|].
+        assert (kle y x).
+        { unfold leb, kcmp in E. destruct (cmpK (key x) (key y)) eqn:E2; try discriminate.
+          unfold kle, le. apply (cmp_gt_lt cmpK TK) in E2. congruence. }
+        eapply Permutation_Forall; [apply kinsert_perm|]. constructor; assumption.
+  Qed.
+
+  Lemma kisort_sorted l : ksorted (isort kcmp l).
+  Proof. induction l as [|x t IH]; cbn; [constructor|]. apply kinsert_sorted, IH. Qed.
+
+  Lemma ksorted_perm_unique l1 : forall l2,
+    NoDup (map key l1) -> ksorted l1 -> ksorted l2 -> Permutation l1 l2 -> l1 = l2.
+  Proof.
+    unfold ksorted. induction l1 as [|x t IH]; intros l2 ND S1 S2 P.
+    - apply Permutation_nil in P. subst. reflexivity.
+    - destruct l2 as [|y u]; [apply Permutation_sym, Permutation_nil in P; discriminate|].
+      inversion S1 as [|? ? St Hx]; subst. inversion S2 as [|? ? Su Hy]; subst.
+      cbn in ND. inversion ND as [|? ? Hnin NDt]; subst.
+      assert (x = y).
+      { assert (In x (y :: u)) as I1 by (eapply Permutation_in; [exact P|left; reflexivity]).
+        assert (In y (x :: t)) as I2 by (eapply Permutation_in; [apply Permutation_sym, P|left; reflexivity]).
+        destruct I1 as [->|I1]; [reflexivity|]. destruct I2 as [->|I2]; [reflexivity|].
+        rewrite Forall_forall in Hx, Hy.
+        assert (key x = key y) by (apply (le_antisym cmpK TK); [apply Hx, I2|apply Hy, I1]).
+        exfalso. apply Hnin. rewrite H. apply in_map, I2. }
+      subst y. f_equal. apply IH; auto. eapply Permutation_cons_inv, P.
+  Qed.
+
+  Theorem kisort_perm_eq l1 l2 :
+    NoDup (map key l1) -> Permutation l1 l2 -> isort kcmp l1 = isort kcmp l2.
+  Proof.
+    intros ND P. apply ksorted_perm_unique; try apply kisort_sorted.
+    - eapply Permutation_NoDup; [|exact ND]. apply Permutation_map, kisort_perm.
+    - rewrite <- (kisort_perm l1), <- (kisort_perm l2). exact P.
+  Qed.
+End KeySort.
+
 (* ---- instances ---- *)
 
 Fixpoint bytes_cmp (a b : list N) : comparison :=
